@@ -195,7 +195,7 @@ class WsSession:
             if extra:
                 out.append(('accept-keys', 'unknown keys in websocket.accept: %r' % sorted(extra)))
             sp = ev.get('subprotocol')
-            if sp is not None and type(sp) is not str:
+            if sp is not None and not isinstance(sp, str):
                 out.append(('accept-subprotocol', 'subprotocol is not a str: %r' % (sp,)))
             if 'headers' in ev:
                 if self.spec < (2, 1):
@@ -227,7 +227,7 @@ class WsSession:
             tx, bs = ev.get('text'), ev.get('bytes')
             if (tx is None) == (bs is None):
                 out.append(('send-payload', 'exactly one of text/bytes must be non-None: %r' % (ev,)))
-            if tx is not None and type(tx) is not str:
+            if tx is not None and not isinstance(tx, str):
                 out.append(('send-payload', 'text is %s' % type(tx).__name__))
             if bs is not None and type(bs) is not bytes:
                 out.append(('send-payload', 'bytes is %s' % type(bs).__name__))
@@ -237,12 +237,12 @@ class WsSession:
             extra = set(ev) - {'type', 'code', 'reason'}
             if extra:
                 out.append(('close-keys', 'unknown keys in websocket.close: %r' % sorted(extra)))
-            if 'code' in ev and (type(ev['code']) is not int):
+            if 'code' in ev and (not isinstance(ev['code'], int) or isinstance(ev['code'], bool)):
                 out.append(('close-code', 'close code is not an int: %r' % (ev['code'],)))
             if 'reason' in ev:
                 if self.spec < (2, 3):
                     out.append(('close-reason-spec', 'close reason sent to a spec %s server' % (self.spec,)))
-                if ev['reason'] is not None and type(ev['reason']) is not str:
+                if ev['reason'] is not None and not isinstance(ev['reason'], str):
                     out.append(('close-reason', 'reason is not a str: %r' % (ev['reason'],)))
         else:
             out.append(('type', 'unexpected event type %r' % t))
